@@ -434,6 +434,25 @@ fn work(thorough: bool, seed: u64, out: &Out) {
             let mask = (rng.next() as u32) & ((1u32 << n) - 1);
             listing_check(&base, mask, false, out);
         }
+        // the history extended by a block without pack
+        match build(true) {
+            Err(e) => {
+                out.case("history:long", true);
+                out.fail("history", "history:long", json!({"history": "long"}), &e);
+            }
+            Ok(long) => {
+                out.case("history:long", true);
+                let mut memo: HashMap<u32, Expect> = HashMap::new();
+                let n = long.n();
+                for _ in 0..150 {
+                    let mut order: Vec<usize> = (0..n).collect();
+                    rng.shuffle(&mut order);
+                    run_order(&long, &mut memo, &order, out);
+                }
+                out.note(&format!("long history: {} files, 150 seeded full permutations", n));
+                listing_check(&long, (1u32 << n) - 1, true, out);
+            }
+        }
         return;
     }
     // thorough
@@ -498,7 +517,7 @@ pub fn run(thorough: bool, seed: u64) -> Report {
         &(if thorough {
             "one fixed source history (A: d1; B melds; A: d2a || B: d2b; A melds, d3 with parents {d2a,d2b}; 4 blocks + 4 packs = 8 item files): ALL 8! delivery orders of the files into an empty adapter observed by one long-lived replica, refresh + 3 checks after every delivered file; the same history extended by a pack-less block d4 (9 files): 20000 distinct seeded orders; listing-order variants (reversed, rotated by 1, rotated by half, sorted descending, child blocks first) on every subset of the 8 files and on the full set + 64 seeded subsets of the 9 files"
         } else {
-            "one fixed source history (A: d1; B melds; A: d2a || B: d2b; A melds, d3 with parents {d2a,d2b}; 4 blocks + 4 packs = 8 item files): 600 seeded orders out of the 720 that deliver d1 and its pack first (both ways) followed by a permutation of the other 6 files, plus 120 seeded permutations of all 8 files, into an empty adapter observed by one long-lived replica, refresh + 3 checks after every delivered file; listing-order variants (reversed, rotated by 1, rotated by half, sorted descending, child blocks first) on the full set and 6 seeded subsets"
+            "one fixed source history (A: d1; B melds; A: d2a || B: d2b; A melds, d3 with parents {d2a,d2b}; 4 blocks + 4 packs = 8 item files): 600 seeded orders out of the 720 that deliver d1 and its pack first (both ways) followed by a permutation of the other 6 files, plus 120 seeded permutations of all 8 files, plus 150 seeded permutations of the 9 files of the same history extended by a pack-less block d4, into an empty adapter observed by one long-lived replica, refresh + 3 checks after every delivered file; listing-order variants (reversed, rotated by 1, rotated by half, sorted descending, child blocks first) on the full sets and 6 seeded subsets"
         })
         .to_string(),
         "enumeration of delivery orders (seeded where stated); one case per order, step and check (refresh-vs-reload / causal / status) and per listing variant and file set; non-trivial = a delivered block is causally incomplete at this step or was at the previous one; 10 s watchdog",
